@@ -31,21 +31,25 @@ mod kani_harnesses {
     }
 
     /// C12: exact outside the region of known finding F-C12-a
-    /// (`amount * ppm` does not fit in 64 bits).
+    /// (`amount * ppm` does not fit in 64 bits). Inside the assumed region the
+    /// proportional part fits in 64 bits, so the reference computes it in 64 bits
+    /// and only the final sum in 128 bits (keeps the SAT problem small).
     #[kani::proof]
     fn fee_sufficient_exact_outside_mul_overflow_region() {
         let base: u32 = kani::any();
         let ppm: u32 = kani::any();
         let total: u64 = kani::any();
         let amount: u64 = kani::any();
-        kani::assume((amount as u128) * (ppm as u128) <= u64::MAX as u128);
+        kani::assume(amount.checked_mul(ppm as u64).is_some());
         let p = TrampolineRoutingPolicy {
             fee_base_msat: base,
             fee_proportional_millionths: ppm,
             cltv_expiry_delta: 0,
         };
         let r = p.fee_sufficient(total, amount);
-        assert!(r == fee_reference(base, ppm, total, amount));
+        let rate_part = (amount * ppm as u64) / 1_000_000;
+        let rhs: u128 = amount as u128 + base as u128 + rate_part as u128;
+        assert!(r == (total as u128 >= rhs));
     }
 
     /// C12 (F-C12-a region): exactness where `amount * ppm` overflows 64 bits.
